@@ -56,6 +56,9 @@ func runC18Enrich(c *fw.Ctx, id string) {
 	r := c.Rng
 	// address pool with duplicates and both encodings of the same IPv4 address
 	pool := []string{"8.8.8.8", "1.1.1.1", "203.0.113.5", "198.51.100.7", "2001:db8::7", "2606:4700::1111", "10.1.2.3", "192.0.2.1"}
+	// hops also answer from link-local, loopback, shared and multicast-range addresses: an answered hop is looked up
+	// whatever range its address is in
+	pool = append(pool, [][]string{{"169.254.169.1", "fe80::1"}, {"127.0.0.53", "100.64.0.1"}, {"224.0.0.9", "ff02::1"}, {"255.255.255.255", "::1"}}[r.Intn(4)]...)
 	beh := map[string]rdnsBehaviour{}
 	delay := map[string]time.Duration{}
 	for _, a := range pool {
